@@ -289,6 +289,12 @@ func (s *rstate) eval(n *ref.N) (rval, error) {
 			}
 			args = append(args, v)
 		}
+		if n.Kids[0].K == "id" && n.Kids[0].Val == "sp" && n.Spread && len(args) == 2 && args[1].k == "arr" {
+			// sp(head, xs...): a variadic host function returning all it received
+			r := rval{k: "arr", elems: append([]rval{args[0]}, args[1].elems...)}
+			s.log = append(s.log, "sp:"+r.String())
+			return r, nil
+		}
 		if n.Kids[0].K != "id" || n.Kids[0].Val != "rec" || len(args) != 2 {
 			return rval{}, errRef
 		}
@@ -461,12 +467,19 @@ func judgeProg(c ProgCase) *eng.Fail {
 		implLog = append(implLog, canonImpl(a)+";"+canonImpl(b))
 		return b, nil
 	}
+	sp := func(head interface{}, rest ...interface{}) (interface{}, error) {
+		all := append([]interface{}{head}, rest...)
+		implLog = append(implLog, "sp:"+canonImpl(all))
+		return all, nil
+	}
 	r := formula.NewRunner()
 	if data != nil {
 		data["rec"] = rec
+		data["sp"] = sp
 		r.SetThis(data)
 	} else {
 		r.SetThisValue("rec", rec)
+		r.SetThisValue("sp", sp)
 	}
 	rs.data["rec"] = rval{k: "unk"}
 	before := ""
@@ -534,8 +547,10 @@ func judgeProg(c ProgCase) *eng.Fail {
 		outcome(want.String() + " / " + wantLocals)
 		if data != nil {
 			delete(data, "rec")
+			delete(data, "sp")
 			after := snapshot(data)
 			data["rec"] = rec
+			data["sp"] = sp
 			if stripRec(before) != stripRec(after) {
 				return eng.F("C07/frame", "%s: caller data changed\n  before: %s\n  after:  %s", what, stripRec(before), stripRec(after))
 			}
@@ -545,13 +560,16 @@ func judgeProg(c ProgCase) *eng.Fail {
 }
 
 func stripRec(s string) string {
-	// the recording function is harness-owned; remove its entry from the rendering
-	i := strings.Index(s, "rec=")
-	if i < 0 {
-		return s
+	// the recording functions are harness-owned; remove their entries from the rendering
+	for _, name := range []string{"rec=", "sp="} {
+		i := strings.Index(s, name)
+		if i < 0 || (i > 0 && s[i-1] != ';') && i != 0 {
+			continue
+		}
+		j := strings.Index(s[i:], ";")
+		s = s[:i] + s[i+j+1:]
 	}
-	j := strings.Index(s[i:], ";")
-	return s[:i] + s[i+j+1:]
+	return s
 }
 
 func judgeTarget(c TargetCase) *eng.Fail {
@@ -628,7 +646,8 @@ func (g *c07Gen) gen(n int) []string {
 	return out
 }
 
-var c07Pool = []string{"$a", "$a = 1", "$a = $b", "$b = [$a, x]", "$a = 2, $b = $a", "[$a, $b, x]", "rec($a = 3, $a)", "$a ? ($b = 1) : ($b = 2)", "x", "$b = x + 1", "$a = [$a, $a]", "rec($b, $b = 7), $b", "$c = $a, $a = $b, $b = $c", "[$a = 1, $a = 2, $a]", "$a = 1 + 2", "$b = 2 + 2", "[1 + 1, 2 + 2, $a]"}
+var c07Pool = []string{"$a", "$a = 1", "$a = $b", "$b = [$a, x]", "$a = 2, $b = $a", "[$a, $b, x]", "rec($a = 3, $a)", "$a ? ($b = 1) : ($b = 2)", "x", "$b = x + 1", "$a = [$a, $a]", "rec($b, $b = 7), $b", "$c = $a, $a = $b, $b = $c", "[$a = 1, $a = 2, $a]", "$a = 1 + 2", "$b = 2 + 2", "[1 + 1, 2 + 2, $a]",
+	"$a = 1, sp($a = 5, [$a, 7]...)", "sp($b = 2, [$b, $b = 3]...), $b", "sp($a, [$a = 9, $a]...)", "sp(rec(1, 2), [rec(3, 4), $a]...)"}
 
 func runC07(w *eng.W) {
 	W = w
